@@ -23,7 +23,8 @@ EXPLANATION = (
     "AttributeError); v_p, v_s = sqrt((K+4G/3 | G) V N_A / M) in km/s by quantity calculus.")
 NOT_DECIDED = ("Reuss <= Hill <= Voigt (a theorem given the formulas and positive definiteness), accuracy of the batched "
                "inverse, positive definiteness of the stiffness.")
-ASSUMPTIONS = ["T-LIB: numpy.linalg.inv inverts over the trailing (6,6) axes",
+ASSUMPTIONS = ["block loops over a grid axis are folded once; coverage of the axis is refuted by an exact integer witness or accepted when the trip count is ceil(L/b) structurally / on the box [1,240] x ([1,48] + {64,100,1000}) (cijsa/blocks.py)",
+               "T-LIB: numpy.linalg.inv inverts over the trailing (6,6) axes",
                "cell mass in the static table is in g/mol (documented input format)",
                "key canonicalisation c_() conforms to T-IDX (property C10)"]
 
